@@ -15,8 +15,8 @@ PLAN = dict(
                 "shared by reader and writer is still visible."),
     level_note=NOTE_BASE,
     runs=[
-        dict(name="limits", run="^(TestLimits|TestCorpus)$", timeout=(300, 1800)),
-        dict(name="rt", run="^TestPropRoundTrip$", checks=(1200, 30000), shards=(1, 8), timeout=(300, 1800)),
+        dict(name="limits", run="^(TestLimits|TestCorpus)$", timeout=(300, 3600)),
+        dict(name="rt", run="^TestPropRoundTrip$", checks=(1200, 150000), shards=(1, 16), timeout=(300, 3600)),
     ],
     require=[("roundtrip", "at-limit"), ("roundtrip", "over-limit"), ("roundtrip", "multi-valued"), ("roundtrip", "1b1"), ("roundtrip", "1b3")],
 )
